@@ -155,6 +155,16 @@ Theorem C14_copy_total : forall st, copy_panics_model st = copy_panics_spec st.
 Proof. exact copy_total. Qed.
 Print Assumptions C14_copy_total.
 
+(* Date.prototype.toJSON: otto's test for "tv is a Number and is not finite" (model) also fires on
+   String primitives (finding C14-tojson-nonnumber-primitive); the two agree on Numbers and Booleans *)
+Theorem C14_tojson_refuted : exists tv, tojson_null_model tv <> tojson_null_spec tv.
+Proof. exists (TJStr false). vm_compute. discriminate. Qed.
+Print Assumptions C14_tojson_refuted.
+
+Theorem C14_tojson_agrees_on_numbers : forall f, tojson_null_model (TJNum f) = tojson_null_spec (TJNum f).
+Proof. exact tojson_numbers. Qed.
+Print Assumptions C14_tojson_agrees_on_numbers.
+
 (* non-vacuity *)
 Example C14_table_size :
   ((350 <? Z.of_nat (List.length all_props)) && (70 <? Z.of_nat (List.length all_objs)) &&
